@@ -29,7 +29,7 @@ def run(ctx):
     # sub-workflow - keeps its state and output whatever is delivered afterwards (keep-result: false on the calling task,
     # late results, the parent's own completion, pauses and cache evictions in between)
     from harness import engine_explore as ee
-    ee.explore(ctx, ['C03'], ['subwf', 'compose', 'subwf', 'defaults'], ctx.n(24, 240), 3, suite='engine_explore_C03')
+    ee.explore(ctx, ['C03'], ee.FEATURES + ['subwf', 'defaults'], ctx.n(32, 320), 3, suite='engine_explore_C03')
 
 
 def search(ctx):
